@@ -98,6 +98,17 @@ def make_exact(cases):
             ctx.close('return==1-for-normalised-input', abs(float(r) - 1), 1e-10, 'return value for a normalised state', detail)
             if cls == 'E':
                 ctx.close(f'exact-on-complete-manifold[{integ}]', e1, 1e-9, f'class E manifold (bond dims {psi.bond_dims}): TDVP != expm(-dt n H) psi', detail)
+                if (idx + rep) % 2 == 0:
+                    # history: the Hamiltonian held by the SAME MPO object is changed in place, then used again
+                    c = float(rng.choice([-1.0, 0.5, 2.0]))
+                    site = int(rng.integers(0, L))
+                    H.A[site] *= c
+                    p2 = copy.deepcopy(psi)
+                    fnc(H, p2, dt, nsteps, numiter_lanczos=BIG)
+                    ex2 = expm(-dt * nsteps * c * mH) @ v0
+                    ctx.close(f'exact-after-inplace-change-of-H[{integ}]', float(np.linalg.norm(refs.dense_state(p2.A) - ex2) / np.linalg.norm(ex2)), 1e-9,
+                              'after an in-place change of the MPO the evolution does not follow the Hamiltonian that is passed in', detail)
+                    H.A[site] *= 1.0 / c
             elif cls == 'M':
                 # known finding F5: complete manifold with mixed saturation carries the O(dt^3) splitting error of the integrator
                 x = abs(dt) * nH
@@ -182,7 +193,7 @@ SPEC = {
              'charge blocks) must be exact to 1e-9; class M (sector-complete, mixed saturation) is the known finding and must still obey the third-order '
              'bound n (|dt| ||H||)^3 (the halving ratio is recorded). Reversibility: single-site, any bond profile (random / all-one / maximal / over-complete), any complex dt, '
              'n steps dt then n steps -dt. distinct = (integrator, model, L, class, dt kind, steps, profile).'),
-    'deciding': ['exact-on-complete-manifold[singlesite]', 'exact-on-complete-manifold[twosite]', 'reversible', 'second-return==1-for-imaginary-dt'],
+    'deciding': ['exact-after-inplace-change-of-H[twosite]', 'exact-on-complete-manifold[singlesite]', 'exact-on-complete-manifold[twosite]', 'reversible', 'second-return==1-for-imaginary-dt'],
     'workloads': [
         Workload('exactness', EX_Q, quick=len(QUICK_CASES), thorough=0, exhaustive={'space': 'all total-charge sectors of every (model, L<=4)'}),
         Workload('exactness-all', EX_T, quick=0, thorough=len(CASES) * 40, exhaustive={'space': 'all total-charge sectors of every (model, L) within dense reach, 6 repetitions with rotating dt kinds'}),
